@@ -426,8 +426,8 @@ def g_variable_values(c, m, vars_, mode="valid"):
 
 MUTATIONS = ["weaken-variable", "perturb-literal", "drop-required-arg", "retarget-condition",
              "rename-field", "leaf-subselection", "drop-subselection", "nullable-var-in-list",
-             "duplicate-key", "undeclared-variable", "unknown-argument", "weaken-inner-variable",
-             "fragment-cycle", "unknown-fragment", "duplicate-definition", "root-spread"]
+             "duplicate-key", "undeclared-variable", "unknown-argument", "weaken-inner-variable"]
+STRUCTURAL = ["fragment-cycle", "unknown-fragment", "duplicate-definition", "root-spread"]
 
 
 def _walk_fields(tree):
@@ -455,7 +455,8 @@ def mutate_document(c, m, doc):
     m = as_model(m)
     d = copy.deepcopy(doc)
     tree = d["tree"]
-    kind = c.choose(MUTATIONS)
+    # value-level mutations keep their share; one mutant in seven is structural
+    kind = c.choose(STRUCTURAL) if c.pick(7) == 0 else c.choose(MUTATIONS + ["nullable-var-in-list"])
     fields = _walk_fields(tree)
     ops = [x for x in tree["defs"] if x["k"] == "op" and not x.get("short")]
     try:
@@ -539,7 +540,7 @@ def mutate_document(c, m, doc):
             f1["sel"].append({"k": "spread", "n": f2["n"], "args": None, "dirs": []})
             if f2 is not f1:
                 f2["sel"].append({"k": "spread", "n": f1["n"], "args": None, "dirs": []})
-            if c.chance(500):
+            if c.chance(128):
                 c.choose(ops)["sel"].append({"k": "spread", "n": f1["n"], "args": None, "dirs": []})
         elif kind == "unknown-fragment":
             owner = c.choose([o["sel"] for o in ops] + [x["sel"] for x in tree["defs"] if x["k"] == "frag"])
